@@ -84,6 +84,9 @@ def strategy(tier):
         'newline': st.fixed_dictionaries({'ref': st.booleans(),
                                           'act': st.booleans()}),
         'ref_missing': st.sampled_from([False] * 7 + [True]),
+        # a history: an earlier, longer failure of the same assertion left
+        # its artefacts in the same tmp_dir
+        'prior_failure': st.sampled_from([False, False, True]),
     }).map(c04.flatten_plain)
     binary = st.fixed_dictionaries({
         'kind': st.just('binary'),
@@ -111,7 +114,8 @@ def valid(case):
             and case.get('entry') in ENTRIES
             and isinstance(case.get('newline'), dict)
             and set(case['newline']) == {'ref', 'act'}
-            and isinstance(case.get('ref_missing'), bool))
+            and isinstance(case.get('ref_missing'), bool)
+            and isinstance(case.get('prior_failure', False), bool))
 
 
 def snapshot(d):
@@ -230,6 +234,32 @@ def run_in(case, ctx, d, tmp, refdir, cwd, actdir, systmp, out):
 
     dirs = {'tmp_dir': tmp, 'reference-dir': refdir, 'cwd': cwd,
             'actual-dir': actdir, 'system-temp': systmp}
+    if not binary and case.get('prior_failure'):
+        # same object, same tmp_dir, same reference name; longer texts
+        k = max(len(case['ref']), len(case['act'])) + 6
+        old_ref = '\n'.join('OLD REFERENCE LINE %d %s' % (i, 'r' * 30)
+                            for i in range(k)) + '\n'
+        old_act = '\n'.join('STALE LINE %d %s' % (i, 's' * 30)
+                            for i in range(k)) + '\n'
+        for (path_, text_) in ((ref_path, old_ref), (act_path, old_act)):
+            with open(path_, 'w', encoding='utf-8', newline='') as f:
+                f.write(text_)
+        if entry == 'assertStringCorrect':
+            call(rt.assertStringCorrect, old_act, ref_path,
+                 **c04.kwargs_for(o))
+        else:
+            call(rt.assertTextFileCorrect, act_path, ref_path,
+                 **c04.kwargs_for(o))
+        if rec.failed:
+            out.label('after-earlier-longer-failure')
+        rec.calls = []
+        if case['ref_missing']:
+            os.remove(ref_path)
+        else:
+            with open(ref_path, 'w', encoding='utf-8', newline='') as f:
+                f.write(ref_text)
+        with open(act_path, 'w', encoding='utf-8', newline='') as f:
+            f.write(act_text)
     before = {k: snapshot(v) for (k, v) in dirs.items()}
     if binary:
         ok, r = call(rt.assertBinaryFileCorrect, act_path, ref_path)
